@@ -256,7 +256,9 @@ def runPeriod (r : Report) (s : Section) : Report := Id.run do
       let lostCls : Option String := if l.op.headD "" == "ltake" then
           (match (l.op.drop 2).headD "" with | "deadline" => some "deadline" | "timeout" => some "err" | _ => none)
         else none
-      if l.op.headD "" == "ltake" && (lostCls.isNone || !d.up || d.forged.isSome || d.conn.link != .up || !d.conn.loaded) then
+      -- (a section whose window computation panics - Align with period 0 - never reaches the script: any take, `ltake`
+      --  included, is compared with the panic below, whatever the link's state)
+      if l.op.headD "" == "ltake" && !(calcExpireZ align periodZ 0).isNone && (lostCls.isNone || !d.up || d.forged.isSome || d.conn.link != .up || !d.conn.loaded) then
         r := r.mismatch s.idx l.idx "ltake <key> deadline|timeout on a served link" (joinSp l.op)
         continue
       -- which limiter (takec names it): its prefix is part of the Redis key
